@@ -146,14 +146,11 @@ Definition ev_arith (o : binop) (x y : Z) : outcome value :=
   match o with
   | BAdd => ev_float (x + y)
   | BSub => ev_float (x - y)
-  | BMul => if ((x * y =? 0) && ((x <? 0) || (y <? 0)))%Z then Unmodelled else ev_float (x * y)
+  | BMul => ev_float (x * y)
   | BDiv => if (y =? 0)%Z then Err EOther
             else if negb (Z.rem x y =? 0)%Z then Unmodelled
-            else if ((x =? 0) && (y <? 0))%Z then Unmodelled
             else ev_float (Z.quot x y)
-  | BMod => if (y =? 0)%Z then Err EOther
-            else if ((Z.rem x y =? 0) && (x <? 0))%Z then Unmodelled
-            else ev_float (Z.rem x y)
+  | BMod => if (y =? 0)%Z then Err EOther else ev_float (Z.rem x y)
   | BPow => if (y <? 0)%Z then Unmodelled
             else if ((ev_pow_limit <? y) && (1 <? Z.abs x))%Z then Unmodelled
             else if ((x =? 0) && (y =? 0))%Z then ev_float 1
@@ -215,7 +212,7 @@ Definition ev_unop (o : unop) (v : value) : outcome value :=
   | UNot => Ok (VBool (negb (vo_to_bool v)))
   | UPos => match vo_to_number v with NumI z => Ok (VFloat z) | NumNo => Ok (VInt 0) | NumUnk => Unmodelled end
   | UNeg => match vo_to_number v with
-            | NumI z => if (z =? 0)%Z then Unmodelled else Ok (VFloat (- z))    (* -0 prints as -0 *)
+            | NumI z => Ok (VFloat (- z))         (* plusZero: there is no negative zero *)
             | NumNo => Ok (VInt 0)
             | NumUnk => Unmodelled
             end
@@ -236,8 +233,8 @@ Fixpoint ev_list (ev : expr -> ev_res) (es : list expr) : outcome (list value) *
   | e :: r => ev_bind (ev e) (fun v => ev_bind (ev_list ev r) (fun vs => ev_ret (v :: vs)))
   end.
 
-(* hash literal: key then value, pair by pair in source order (Go ranges over a map keyed by the key nodes:
-   the order is not defined; see the fidelity notes of the report); the key is its text *)
+(* hash literal: key then value, pair by pair in source order; the key is its text; with equal keys the last
+   pair written wins (its value takes the place of the earlier one) *)
 Fixpoint ev_pairs (ev : expr -> ev_res) (kvs : list (expr * expr)) (acc : list (value * value)) : ev_res :=
   match kvs with
   | [] => ev_ret (VMap MAny acc)
@@ -245,11 +242,7 @@ Fixpoint ev_pairs (ev : expr -> ev_res) (kvs : list (expr * expr)) (acc : list (
     ev_bind (ev k) (fun kv =>
     match vo_to_str kv with
     | None => ev_lift Unmodelled
-    | Some ks =>
-      match vo_map_find acc (VStr ks) with
-      | Some _ => ev_lift Unmodelled        (* duplicate key: the surviving value depends on Go's map order *)
-      | None => ev_bind (ev x) (fun xv => ev_pairs ev r (acc ++ [(VStr ks, xv)]))
-      end
+    | Some ks => ev_bind (ev x) (fun xv => ev_pairs ev r (vo_map_set acc (VStr ks) xv))
     end)
   end.
 
@@ -577,7 +570,10 @@ Fixpoint ev_parent_blocks (top : list node) (pb : list (bytes * list node)) : li
   | _ :: r => ev_parent_blocks r pb
   end.
 
-(* ExtendsNode.Render from the child's context c *)
+(* ExtendsNode.Render from the child's context c: the parent template is rendered in a new context holding a
+   copy of the child's own variables and the child's PARENT chain (so that a template included through Clone,
+   whose variables live in its parent contexts, still sees them after extends), no macros, the blocks and the
+   chain of definitions collected so far *)
 Definition ev_extends (ev : rctx -> expr -> ev_res) (root : rctx -> list node -> ev_rres) (env : ev_env)
                       (c : rctx) (e : expr) : ev_rres :=
   let c1 := rc_with_extending c true in
@@ -587,7 +583,7 @@ Definition ev_extends (ev : rctx -> expr -> ev_res) (root : rctx -> list node ->
     | Some pnodes =>
       let name := fst nl in
       let pc :=
-        MkRc (rc_vars c1) None [] (rc_blocks c1)
+        MkRc (rc_vars c1) (rc_parent c1) [] (rc_blocks c1)
              (ev_parent_blocks pnodes (rc_parent_blocks c1))
              (match rc_chain c1 with Some ((_ :: _) as ch) => Some ch | _ => None end)
              true None [] 0 false (rc_sandboxed c1) (Some name) name in
@@ -620,8 +616,10 @@ Definition ev_root (ev : rctx -> expr -> ev_res) (rend root : rctx -> list node 
     end.
 
 (* ---------------------------------------------------------------- include *)
-(* the variables of with { ... }: the parser keeps one expression per name (the last), evaluates them in the
-   INCLUDER's context (in Go's map order: see the report) and binds them in the context of the include *)
+(* the variables of with { ... }: the parser keeps one expression per name (the last) in a Go map; they are
+   evaluated in the INCLUDER's context, in that map's iteration order (the model: source order; with more than one
+   entry the order is observable only through traces and through which of two failing entries is reported), and
+   bound in the context of the include *)
 Fixpoint ev_with_dedup (kvs : list (expr * expr)) : option (list (bytes * expr)) :=
   match kvs with
   | [] => Some []
